@@ -167,7 +167,7 @@ Theorem magic_dispatch_consistent :
   Z.of_nat (length (nodup Z.eq_dec (0 :: nonzero_magics))) = magic_FileType_count /\
   forall m, In m signers_table ->
     by_name (m_name m) = Some m /\ (forall a, In a (m_aliases m) -> by_name a = Some m) /\ (m_magic m <> 0 -> by_magic (m_magic m) = Some m) /\
-    server_route (m_name m) = Chosen m.
+    server_route (m_name m) = (if token_sign_refuses_verify_only (m_has_sign m) then Refused E_NO_SIGNER else Chosen m).
 Proof.
   destruct table_facts as [A [B [C [D E]]]]. split; [exact A|]. split; [exact B|]. split; [exact C|]. split; [exact D|]. split; [exact E|].
   exact table_self_lookup.
@@ -182,7 +182,8 @@ Proof.
 Qed.
 (* without -T, `relic sign` / `relic remote sign` and `relic verify` choose the same module for the same content and name;
    signing refuses compressed input, verifying accepts it exactly for modules with a stream verifier; with -T the content is not looked at;
-   the client sends the NAME of the module it chose and the server looks exactly that module up (it never inspects the content) *)
+   the client sends the NAME of the module it chose and the server looks exactly that module up (it never inspects the content);
+   the server refuses exactly the (verify-only) types the command line refuses *)
 Theorem magic_route_consistent :
   (forall name t, signers_byfile_stdin name = false -> route_mod (by_file [] name true (Ok (t, 0))) = vroute_mod (verify_route name (Ok (t, 0)))) /\
   (forall name t c, signers_byfile_stdin name = false -> c <> 0 -> by_file [] name true (Ok (t, c)) = Refused E_COMPRESSED) /\
@@ -190,10 +191,15 @@ Theorem magic_route_consistent :
      match (match by_magic t with Some m => Some m | None => by_filename name end) with
      | None => VRefused E_UNKNOWN | Some m => if m_has_stream m then VStream m c else VRefused E_COMPRESSED end) /\
   (forall sigtype n1 n2 o1 o2 d1 d2, sigtype <> [] -> by_file sigtype n1 o1 d1 = by_file sigtype n2 o2 d2) /\
-  (forall sigtype name o det m, by_file sigtype name o det = Chosen m -> server_route (m_name m) = Chosen m).
+  (forall sigtype name o det m, sign_route sigtype name o det = Chosen m -> server_route (m_name m) = Chosen m) /\
+  (forall m, In m signers_table -> (exists e, server_route (m_name m) = Refused e) <-> token_sign_refuses_verify_only (m_has_sign m) = true).
 Proof.
   split; [exact route_sign_eq_verify|]. split; [exact sign_refuses_compressed|]. split; [exact verify_compressed|]. split; [exact explicit_type_ignores_content|].
-  intros sigtype name o det m H. apply table_self_lookup. exact (by_file_in_table _ _ _ _ _ H).
+  split.
+  - intros sigtype name o det m H. destruct (sign_route_can_sign _ _ _ _ _ H) as [Hin Hv].
+    destruct (table_self_lookup m Hin) as [_ [_ [_ Hs]]]. rewrite Hs, Hv. reflexivity.
+  - intros m Hin. destruct (table_self_lookup m Hin) as [_ [_ [_ Hs]]]. rewrite Hs.
+    destruct (token_sign_refuses_verify_only (m_has_sign m)); split; [intros _; reflexivity|intros _; eauto|intros [e He]; discriminate|discriminate].
 Qed.
 (* the per-module fields: only the pgp module may read standard input; deb, pgp and rpm sign with PGP keys, every other module with X.509;
    mach-o-fat, ipa and pkcs7 are verify-only; `relic sign -f -` is refused without -T, goes to pgp with -T pgp, and is refused for every other
